@@ -38,7 +38,7 @@ func genC10(r *rand.Rand, kind string) *c10Case {
 		mx = mn + 10 + r.Intn(50)
 	}
 	kind, home := homeKind(r, kind)
-	fan := FanSpec{Kind: kind, HomePath: home, NeverStop: true, HasRpm: true, HasEnable: r.Intn(2) == 0, HasPwm: true, SimMin: mn, SimMax: mx}
+	fan := FanSpec{Kind: kind, HomePath: home, ViaLoader: kind != "sim" && r.Intn(4) == 0, NeverStop: true, HasRpm: true, HasEnable: r.Intn(2) == 0, HasPwm: true, SimMin: mn, SimMax: mx}
 	if kind == "hwmon" {
 		if part := r.Intn(5); part < 2 {
 			fan.CfgMin, fan.CfgMax = iptr(mn), iptr(mx)
